@@ -79,8 +79,12 @@ void harness(void)
 		p.basis->cstat = malloc(2); p.basis->rstat = malloc(2); __CPROVER_assume(p.basis->cstat != 0 && p.basis->rstat != 0);
 		p.basis->nstruct = 2; p.basis->nrows = 2;
 	}
+	{ IN_BOOL(has_cache); p.factorok = nondet_bool(); p.qstatus = nondet_int();
+	  if (has_cache) { p.cache = malloc(sizeof *p.cache); __CPROVER_assume(p.cache != 0); mpq_init(p.cache->val); mpq_ILLlp_cache_init(p.cache); } }
 	rv = mpq_QSread_and_load_basis(&p, "f");
 	ASSERT(!g_reader_saw_owned, "C18: the basis handed to the basis reader owns no arrays (the reader re-initialises it)");
+	if (rv == 0) ASSERT(p.cache == 0 && p.factorok == 0, "C05: a basis read from a file replaces the stored one: the stored solution and the factorization of the previous basis are dropped");
+	if (p.cache) { mpq_ILLlp_cache_free(p.cache); mpq_clear(p.cache->val); free(p.cache); }
 	if (p.basis) { mpq_ILLlp_basis_free(p.basis); free(p.basis); }
 #else
 #error "select a section"
